@@ -460,6 +460,14 @@ class StoreRun:
             return self.mailbox_set._inbox
         return self.mailbox_set._set.get(name)
 
+    def alive_uids(self, num: int) -> set[int]:
+        """The uids of the messages the mailbox holds now (glass box)."""
+        mbx = self.box(num)
+        return set(mbx._messages) if mbx is not None else set()
+
+    def message_exists(self, num: int, uid: int) -> bool:
+        return uid in self.alive_uids(num)
+
     def boxes(self) -> dict[int, object]:
         out = {1: self.mailbox_set._inbox}
         for name, mbx in self.mailbox_set._set.items():
